@@ -174,3 +174,46 @@ Theorem C03_wire_default_proxy : forall v r sd pt cl,
   natty_of (pq_nat r) = NatUnknown /\
   (forall cn, eligible cn (new_entry sd (natty_of (pq_nat r)) pt cl) = is_unrestricted cn).
 Proof. exact proxy_absent_nat_kept_for_unrestricted_clients. Qed.
+
+(* The Version field of a proxy poll (every string the decoder accepts: major version 1 - "1.0" ... "1.3", a bare "1",
+   "1.10", "1.2.3" ...) does not enter the pool decision: two polls whose other fields agree decode alike, and for
+   EVERY accepted version the poll is registered with exactly the NAT type it carries (empty = unknown), i.e. kept for
+   the clients compatible with that NAT type and for no others. [unmarshal poll_req_schema v] = what json.Unmarshal
+   leaves in the ProxyPollRequest struct (Model/JsonBoundary.v). *)
+Theorem C03_wire_version_irrelevant : forall v1 v2 sid ver1 ver2 ty nat n pat,
+  unmarshal poll_req_schema v1 = Some [VStr sid; VStr ver1; VStr ty; VStr nat; VInt n; VPtr pat] ->
+  unmarshal poll_req_schema v2 = Some [VStr sid; VStr ver2; VStr ty; VStr nat; VInt n; VPtr pat] ->
+  major_ok ver1 = true -> major_ok ver2 = true ->
+  decode_proxy_poll v1 = decode_proxy_poll v2.
+Proof. exact proxy_poll_version_irrelevant. Qed.
+
+Theorem C03_wire_nat_for_every_version : forall v sid ver ty nat n pat,
+  unmarshal poll_req_schema v = Some [VStr sid; VStr ver; VStr ty; VStr nat; VInt n; VPtr pat] ->
+  major_ok ver = true -> beq sid [] = false ->
+  match norm_nat nat with
+  | None => decode_proxy_poll v = Err
+  | Some nat' =>
+      exists r, decode_proxy_poll v = Ok r /\ pq_nat r = nat' /\ pq_sid r = sid /\ pq_type r = norm_type ty /\
+                pq_clients r = n /\
+                (forall cn sd pt cl, eligible cn (new_entry sd (natty_of (pq_nat r)) pt cl) = compat cn (natty_of nat'))
+  end.
+Proof. exact proxy_poll_nat_for_every_version. Qed.
+
+(* non-vacuity: polls carrying NAT "unrestricted" under the versions 1.0, 1, 1.10 and 1.3 (the last without the
+   relay-pattern field) are all accepted with NAT unrestricted - kept for restricted/unknown clients, not for
+   unrestricted ones; version 2.0 is refused *)
+Example C03_wire_version_example :
+  let poll ver := JObj [jstr_field (bs "Sid") (bs "s"); jstr_field (bs "Version") ver; jstr_field (bs "Type") (bs "standalone");
+                        jstr_field (bs "NAT") NAT_UNRESTRICTED; (bs "Clients", JNum (bs "2"))] in
+  (forall ver, In ver [bs "1.0"; bs "1"; bs "1.10"; bs "1.3"] ->
+     major_ok ver = true /\
+     exists r, decode_proxy_poll (poll ver) = Ok r /\ natty_of (pq_nat r) = NatUnrestricted /\
+       eligible NatRestricted (new_entry 1 (natty_of (pq_nat r)) 1 0) = true /\
+       eligible NatUnknown (new_entry 1 (natty_of (pq_nat r)) 1 0) = true /\
+       eligible NatUnrestricted (new_entry 1 (natty_of (pq_nat r)) 1 0) = false) /\
+  decode_proxy_poll (poll (bs "2.0")) = Err.
+Proof.
+  split; [|vm_compute; reflexivity].
+  intros ver [<-|[<-|[<-|[<-|[]]]]]; (split; [vm_compute; reflexivity|]); eexists; (split; [vm_compute; reflexivity|]);
+    repeat split; vm_compute; reflexivity.
+Qed.
